@@ -23,15 +23,17 @@ import (
 	"verif/inst"
 	"verif/lmdbx"
 	"verif/lsx"
+	"verif/props/loopp"
 	"verif/rng"
 	"verif/runner"
 	"verif/wire"
 )
 
 type c12Params struct {
-	Part  string `json:"part"` // direct | syncer | receiveonly
-	Seed  uint64 `json:"seed"`
-	Count int    `json:"count"`
+	Part  string          `json:"part"` // direct | syncer | receiveonly
+	Seed  uint64          `json:"seed"`
+	Count int             `json:"count"`
+	Clean *loopp.CleanScn `json:"clean,omitempty"`
 }
 
 func C12() *runner.Property {
@@ -41,10 +43,11 @@ func C12() *runner.Property {
 		Rule: "direct: a real cleaner.Worker runs with a virtual clock (RunOnce(ctx, now)) over generated histories: 1-6 instances publishing 0-8 snapshots in timestamp order, foreign files (other databases db2/db-x, junk, temp names, malformed timestamps), clock increments on both sides of and exactly at must_keep_interval and remove_old_instances_interval (incl. 0), " +
 			"commit notifications before/at/after each snapshot time, List and Delete fault scripts. Every Delete event in the bucket log is checked by an independent policy (well-formed snapshot of this database; first listed >= keep interval ago; never an instance's newest unless silent longer than the stale interval AND committed >= its time; none in a run whose List failed); " +
 			"bounded progress: after a fault-free run in which every name was first seen more than the keep interval ago exactly one snapshot per instance is left (none if the stale rule applied). syncer: a real Sync loop with cleaning enabled and a stale foreign instance: the newest snapshot of that instance may only be deleted after a successful own Store that followed its merge, also while Stores fail and are retried. " +
+			"syncer-two-phase: after the own upload a second, newer snapshot of the stale instance and a snapshot of another stale instance appear and are merged without a local change (no upload): the cleaner, run ~100 times meanwhile, must keep both. " +
 			"receiveonly: a real receive-only Sync with cleaning configured never issues Store or Delete. Non-trivial = >= 1 Delete issued or >= 1 candidate protected by a clause.",
-		Assumptions:  []string{"snapshots of one instance appear in the listing in timestamp order (the property's quantifier)", "the policy does not say which files must be deleted except through the bounded-progress clause"},
-		BatchSize:    6,
-		CaseTimeout:  120e9,
+		Assumptions: []string{"snapshots of one instance appear in the listing in timestamp order (the property's quantifier)", "the policy does not say which files must be deleted except through the bounded-progress clause"},
+		BatchSize:   6,
+		CaseTimeout: 120e9,
 		Cases: func(tier string, seed int64) []runner.Case {
 			r := rng.New(uint64(seed) ^ 0xC12)
 			nd, ns := 40, 24
@@ -57,6 +60,17 @@ func C12() *runner.Property {
 			}
 			for i := 0; i < ns; i++ {
 				cs = append(cs, runner.MkCase("syncer", fmt.Sprint(i), c12Params{Part: "syncer", Seed: r.U64(), Count: 1}))
+			}
+			for _, native := range []bool{true, false} {
+				for _, sf := range []int{0, 1, 3} {
+					for _, aw := range []bool{false, true} {
+						if aw && sf == 0 {
+							continue
+						}
+						sc := loopp.CleanScn{Native: native, StoreFails: sf, AfterWrite: aw}
+						cs = append(cs, runner.MkCase("syncer-two-phase", sc.ID(), c12Params{Part: "syncer2", Clean: &sc}))
+					}
+				}
 			}
 			for i := 0; i < 4; i++ {
 				cs = append(cs, runner.MkCase("receiveonly", fmt.Sprint(i), c12Params{Part: "receiveonly", Seed: r.U64(), Count: 1}))
@@ -80,6 +94,8 @@ func runC12(c runner.Case, env *runner.Env) (res runner.Result) {
 		res.Sample = map[string]any{"case": c.ID, "histories": p.Count, "deletes": res.Obs["deletes"], "protected": res.Obs["protected_by_keep"] + res.Obs["protected_newest"] + res.Obs["protected_uncommitted"]}
 	case "syncer":
 		syncerScenario(r, env, &res, c.ID)
+	case "syncer2":
+		loopp.RunCleanForcedPolicy(*p.Clean, env, &res)
 	case "receiveonly":
 		receiveOnlyScenario(r, env, &res, c.ID)
 	}
